@@ -6,6 +6,7 @@ once it stopped: the definition lives, text unchanged, in BB/Lemmas/RunQuick.lea
 -/
 import BB.Lemmas.Refine
 import BB.Lemmas.RunQuick
+import BB.Lemmas.RunQuick2
 
 namespace BB
 
@@ -71,6 +72,33 @@ theorem run_quick_cycles (p : Prog) (lim : Nat)
     (h : (runQuick p lim).result = .undfnd ∨ (runQuick p lim).result = .spnout) :
     (quickAfter p (runQuick p lim).cycles).isSome ∧ (runQuick p lim).cycles < lim :=
   (runQuick_spec p lim).cycles h
+
+/-! ### Nothing is missed inside a sweep -/
+
+/-- **First blank.** A recorded (state, step) is the FIRST step `≥ 1` at which the tape is blank in
+    that state. -/
+theorem run_quick_blanks_first (p : Prog) (lim q n : Nat) (h : (q, n) ∈ (runQuick p lim).blanks) :
+    ∀ m, 0 < m → m < n → ¬ ∃ c, RunAt p.toF m c ∧ c.state = q ∧ c.Blank :=
+  (runQuick_spec2 p lim).first q n h
+
+/-- **Blank record complete.** Every blank tape met at a step `1 ≤ m ≤ steps` has its state recorded,
+    at a step not later than `m`. -/
+theorem run_quick_blanks_complete (p : Prog) (lim : Nat) (h : (runQuick p lim).result ≠ .overflow) (m q : Nat)
+    (hm : 0 < m) (hle : m ≤ (runQuick p lim).steps) (hb : ∃ c, RunAt p.toF m c ∧ c.state = q ∧ c.Blank) :
+    ∃ n, n ≤ m ∧ (q, n) ∈ (runQuick p lim).blanks :=
+  (runQuick_spec2 p lim).complete h m q hm hle hb
+
+/-- **No spin-out missed.** No configuration strictly before the reported step is a spin-out
+    configuration. -/
+theorem run_quick_no_early_spinout (p : Prog) (lim : Nat) (h : (runQuick p lim).result ≠ .overflow) :
+    ∀ m c, m < (runQuick p lim).steps → RunAt p.toF m c → ¬ SpinOutCfg p.toF c :=
+  (runQuick_spec2 p lim).noSpin h
+
+/-- **No halt missed.** No undefined instruction is met strictly before the reported step. -/
+theorem run_quick_no_early_halt (p : Prog) (lim : Nat) (h : (runQuick p lim).result ≠ .overflow) :
+    ∀ m, m < (runQuick p lim).steps → ∀ q s, ¬ HaltsAt p.toF m q s := by
+  obtain ⟨c, hc, _⟩ := (runQuick_spec p lim).marks h
+  exact fun m hm q s => no_halt_before hc hm q s
 
 /- Non-vacuity: a concrete machine that exercises sweeps, halts, and meets every hypothesis. -/
 example : (runQuick [((0,0),(1,true,1)), ((0,1),(1,false,1)), ((1,0),(1,false,0))] 100).result = .undfnd := by decide
